@@ -1,6 +1,6 @@
 SPECIFICATION Spec
 CONSTANTS
-  MaxStmts = 2
+  MaxStmts = 1
   MaxDecorated = 2
   NTexts = 10
   Export = TRUE
